@@ -11,4 +11,6 @@ var All = map[string]func(*Ctx){
 	"C07": C07,
 	"C08": C08,
 	"C09": C09,
+	"C10": C10,
+	"C11": C11,
 }
